@@ -848,7 +848,7 @@ package uhppote
 //@   requires sysdt:   (sdtZero(E.SystemDate) ==> status.SystemDateTime.abs == 0 && status.SystemDateTime.ns == 0) &&
 //@                       (!sdtZero(E.SystemDate) && 0 <= time.year(E.SystemDate.abs, E.SystemDate.loc) && time.year(E.SystemDate.abs, E.SystemDate.loc) <= 9999 &&
 //@                          time.exists(sdtCivil(E.SystemDate, E.SystemTime), time.Local) ==> sdtSame(status.SystemDateTime, E.SystemDate, E.SystemTime))
-//@   requires own:     fresh(status.DoorState) && fresh(status.DoorButton)
+//@   requires own:     newvar(status) && fresh(status.DoorState) && fresh(status.DoorButton)
 //@   modifies evt.events
 //@   ensures event: evt.events == old(evt.events) + 1
 
